@@ -16,6 +16,9 @@ FILES = {"src/crypto/bake.c", "src/crypto/btok/btok_bauth.c"}
 FLAG = lambda name: CMP(True, r"settings->%s$" % name)
 
 
+EQPT = lambda fs: any(x[0] == "T" and x[1].startswith(("wwEq(", "memEq(", "wwEq_fast(", "memEq_fast(")) for x in fs)
+
+
 def implies(p, q):
     return lambda fs: (not p(fs)) or q(fs)
 
@@ -25,15 +28,15 @@ ACCEPT = [
     ("bakeBMQVStep4", [("kca => Ta verified (beltMACStepV)", implies(FLAG("kca"), T("beltMACStepV(")))]),
     ("bakeBMQVStep5", [("Tb verified (beltMACStepV)", T("beltMACStepV("))]),
     ("bakeBSTSStep4", [("Ta verified (beltMACStepV)", T("beltMACStepV(")), ("sa < q", FACT("ltc", r"order$")),
-                       ("certificate accepted (vala)", OK("(*vala)(")), ("sa G == Va check (wwEq)", T("wwEq("))]),
+                       ("certificate accepted (vala)", OK("(*vala)(")), ("sa G == Va check (wwEq)", EQPT)]),
     ("bakeBSTSStep5", [("Tb verified (beltMACStepV)", T("beltMACStepV(")), ("sb < q", FACT("ltc", r"order$")),
-                       ("certificate accepted (valb)", OK("(*valb)(")), ("sb G == Vb check (wwEq)", T("wwEq("))]),
+                       ("certificate accepted (valb)", OK("(*valb)(")), ("sb G == Vb check (wwEq)", EQPT)]),
     ("bakeBPACEStep5", [("kcb => Tb verified (beltMACStepV)", implies(FLAG("kcb"), T("beltMACStepV(")))]),
     ("bakeBPACEStep6", [("Ta verified (beltMACStepV)", T("beltMACStepV("))]),
     ("btokBAuthTStep3", [("key token unwrapped (beltKWPUnwrap == ERR_OK)", ANY(CMP(False, r"beltKWPUnwrap\(.*!=0"), CMP(True, r"beltKWPUnwrap\(.*==0")))]),
     ("btokBAuthCTStep4", [("Tt verified (beltMACStepV)", T("beltMACStepV("))]),
     ("btokBAuthTStep5", [("Tct verified (beltMACStepV)", T("beltMACStepV(")), ("sct < q", FACT("ltc", r"order$")),
-                         ("certificate accepted (val_ct)", OK("(*val_ct)(")), ("sct check (wwEq)", T("wwEq("))]),
+                         ("certificate accepted (val_ct)", OK("(*val_ct)(")), ("sct check (wwEq)", EQPT)]),
 ]
 STARTS = ["bakeBMQVStart", "bakeBSTSStart", "btokBAuthCTStart", "btokBAuthTStart"]
 
@@ -184,6 +187,119 @@ def check_tag_agreement(prog, res):
                                  "parties disagree on when the tag is present" % (sorted(c), sorted(p)))
 
 
+_EQ_CALLS = ("wwEq(", "memEq(", "wwEq_fast(", "memEq_fast(")
+
+
+def _split_args(text):
+    """arguments of a canonical call text `f(a,b,c)`"""
+    body = text[text.index("(") + 1:text.rindex(")")]
+    out, depth, cur = [], 0, ""
+    for ch in body:
+        if ch == "," and depth == 0:
+            out.append(cur); cur = ""
+            continue
+        depth += ch == "("
+        depth -= ch == ")"
+        cur += ch
+    out.append(cur)
+    return out
+
+
+def _words(text, octets):
+    """a length in multiples of the field length n (words), or None: n, (2*n), no, (2*no), (n*8), ((2*n)*8)"""
+    t = text.replace(" ", "")
+    while t.startswith("(") and t.endswith(")") and t.count("(") == t.count(")") and _balanced(t[1:-1]):
+        t = t[1:-1]
+    m = re.match(r"^(?:(\d+)\*)?(n|no)$", t) or re.match(r"^(n|no)\*(\d+)$", t)
+    if m:
+        g = m.groups()
+        sym = g[1] if g[1] in ("n", "no") else g[0]
+        k = g[0] if g[1] in ("n", "no") else g[1]
+        k = int(k) if k else 1
+        if (sym == "no") != octets:
+            return None
+        return k
+    m = re.match(r"^(.+)\*8$", t)
+    if m and octets:
+        return _words(m.group(1), False)
+    return None
+
+
+def _balanced(t):
+    d = 0
+    for ch in t:
+        d += ch == "("
+        d -= ch == ")"
+        if d < 0:
+            return False
+    return d == 0
+
+
+def check_point_compared_in_full(prog, res):
+    """R04.6: the steps that accept the peer's signature-like component by comparing a recomputed point with the
+    received one (s*G + (2^l + t)*Q == V) compare both coordinates: on every success return the accepted comparisons
+    cover words [0, 2n) of the point.  A comparison of the x-coordinate alone accepts the opposite point (seeds C04-7,
+    round 9 C04/1)."""
+    n = 0
+    for fn, req in ACCEPT:
+        if not any("wwEq" in label for label, _ in req):
+            continue
+        f = prog.funcs.get(fn)
+        if f is None or f.body is None:
+            raise AnalysisBroken("protocol step %s vanished" % fn)
+        rets = []
+
+        def on_return(e, rc, facts, node, cl, pend, env):
+            if rc == "zero":
+                rets.append((node.line, [x[1] for x in facts if x[0] == "T" and x[1].startswith(_EQ_CALLS)]))
+        vp.run_facts(f, prog, on_return=on_return, track_generic=True)
+        if not rets:
+            raise AnalysisBroken("R04.6: %s has no success return" % fn)
+        for line, calls in rets:
+            n += 1
+            parsed = []
+            for c in sorted(set(calls)):
+                a = _split_args(c)
+                if len(a) != 3:
+                    raise AnalysisBroken("R04.6: comparison %s in %s is not of the form f(a, b, length)" % (c, fn))
+                k = _words(a[2], c.startswith("mem"))
+                if k is None:
+                    raise AnalysisBroken("R04.6: the length of %s in %s is not a multiple of the field length that this rule reads" % (c, fn))
+                parsed.append((a[0], a[1], k, c))
+            if not parsed:
+                continue         # R04.2 reports a success return without the comparison
+            a0 = min((p_[0] for p_ in parsed), key=len)
+            b0 = min((p_[1] for p_ in parsed), key=len)
+            ivs = []
+            for a_, b_, k, c in parsed:
+                offs = []
+                for x, x0 in ((a_, a0), (b_, b0)):
+                    if x == x0:
+                        offs.append(0)
+                    elif x in (x0 + "+n", "(" + x0 + ")+n", x0 + "+(n)"):
+                        offs.append(1)
+                    else:
+                        offs.append(None)
+                if offs[0] is None or offs[0] != offs[1]:
+                    continue     # a comparison of something else
+                ivs.append((offs[0], k))
+            cur = 0
+            for s_, k in sorted(ivs):
+                if s_ <= cur:
+                    cur = max(cur, s_ + k)
+            if cur >= 2:
+                res.proved("R04.6-point-compared-in-full", function=fn, file=f.relfile, line=line,
+                           construct="; ".join(p_[3] for p_ in parsed),
+                           detail="the accepted comparison(s) cover both coordinates (2n words) of the recomputed point")
+            else:
+                res.violation("R04.6-point-compared-in-full", function=fn, file=f.relfile, line=line,
+                              construct="; ".join(p_[3] for p_ in parsed),
+                              detail="on the success return at line %d the recomputed point is compared with the received one over "
+                                     "%d of its 2 coordinates only: the point with the other coordinate altered (the opposite "
+                                     "point) is accepted, although the peer's message was changed" % (line, cur))
+    return n
+
+
 def run(tier, seed=0):
     res = Result("C04", "other", tier)
     prog = ir.Program("w64")
@@ -191,6 +307,9 @@ def run(tier, seed=0):
     for fn, req in ACCEPT:
         vprules.check_must(prog, res, "R04.2-accept-only-verified", fn, req)
     check_tag_agreement(prog, res)
+    n6 = check_point_compared_in_full(prog, res)
+    if n6 < 3:
+        raise AnalysisBroken("R04.6: %d success returns of point-comparing steps found, 3 confirmed by reading" % n6)
     n3 = vprules.check_sampling(prog, res, "R04.3-sampling-modulus", FILES)
     n4 = vprules.check_modular_operands(prog, res, "R04.3-modular-operands-reduced", FILES)
     # R04.4 drivers
